@@ -1,5 +1,7 @@
 import PyYetiVerif.Model.Fixtime
+import PyYetiVerif.Model.FixtimeTnew
 import PyYetiVerif.Model.Psd
+import PyYetiVerif.Model.PsdOct
 import PyYetiVerif.Model.Resample
 /-! Line protocol for C19.  Sections of a request are separated by `|`.
 Rationals travel as `n` or `n/d` (exact); floats as decimal `UInt64` bit patterns.
@@ -10,6 +12,7 @@ exact (`Rat`)
 `pv told… | tnew…`                  → `_find_closest_previous_times`
 `cls told… | tnew…` / `pvs …`       → the numba (sequential) variants, or `index-error`
 `rlen ln p q`                       → length of `resample`'s output
+`mkt sr | told…`                    → `_mk_initial_tnew`: `tnew…|tp…|align|delt` or `raises`
 `tn t0 t1 ln p q`                   → the returned positions `tnew`
 `rcq ext | FLin | FUin | P | FL | FU` → `rescaleCore`:  `psd…|ms…|msv`
 `rfq ext | P | F | freq`            → `rescaleFreq` (linear scales only, else `nonlinear`):
@@ -19,6 +22,7 @@ numeric (`Float`)
 `ilog x… | f p f p …` / `ilin …`    → `psd.interp(linear=False|True)`
 `edges c…`                          → `_get_fl_fu`: `FL…|FU…`
 `rcf …` / `rff …`                   → as `rcq` / `rfq` at `Float`
+`oct exact trim | n fr0 e [anchor]`   → `get_freq_oct`: `F…|FL…|FU…` or `value-error` (trim: o c i)
 `fir p q pts | w…`                  → FIR taps
 `rs p q pts | w… | data…`           → `resample`
 anything else → `bad-op` -/
@@ -48,6 +52,9 @@ instance : Psd.PsdOps Float := ⟨Float.log, Float.exp, Float.sqrt⟩
 /-- `Rat` runs only the linear band scales (the driver refuses the others), `sqrt` is unused. -/
 instance : Psd.PsdOps Rat := ⟨fun _ => 0, fun _ => 0, fun _ => 0⟩
 instance : NatCast Float := ⟨Float.ofNat⟩
+instance : PsdOct.OctOps Float :=
+  ⟨Float.log2, Float.log10, Float.pow, Float.floor,
+    fun x => if x ≤ 0 then 0 else if x.isFinite then x.ceil.toUInt64.toNat else 0⟩
 instance : Resample.SincOps Float := ⟨Float.sin, 3.141592653589793⟩
 
 def pairs {β : Type} : List β → Option (List (β × β))
@@ -91,6 +98,11 @@ def answer (line : String) : String :=
         match Fixtime.prevSeq a v with
         | some idx => pure (fmtNats idx)
         | none => pure "index-error"
+    | [["mkt", sr], told] => do
+        let sr ← parseRat sr; let told ← parseRats told
+        match Fixtime.mkInitialTnew told sr with
+        | some r => pure s!"{fmtRats r.tnew}|{fmtNats r.tp}|{if r.align then 1 else 0}|{fmtRat r.delt}"
+        | none => pure "raises"
     | [["rlen", ln, p, q]] => do
         let ln ← ln.toNat?; let p ← p.toNat?; let q ← q.toNat?
         if p = 0 ∨ q = 0 then none else pure (toString (Resample.resampleLen ln p q))
@@ -136,6 +148,22 @@ def answer (line : String) : String :=
         match Psd.rescaleFreq p f fr e with
         | some (r, lo, hi) => pure s!"{lo} {hi}|{fmtResF r}"
         | none => pure "value-error"
+    | [["oct", ex, tr], args] => do
+        let ex ← parseBool ex
+        let tr ← match tr with
+          | "o" => some PsdOct.Trim.outside | "c" => some PsdOct.Trim.center
+          | "i" => some PsdOct.Trim.inside | _ => none
+        let a ← parseFs args
+        match a with
+        | [n, f0, e] =>
+            match PsdOct.getFreqOct n f0 e ex tr none with
+            | some (F, FL, FU) => pure s!"{fmtFs F}|{fmtFs FL}|{fmtFs FU}"
+            | none => pure "value-error"
+        | [n, f0, e, an] =>
+            match PsdOct.getFreqOct n f0 e ex tr (some an) with
+            | some (F, FL, FU) => pure s!"{fmtFs F}|{fmtFs FL}|{fmtFs FU}"
+            | none => pure "value-error"
+        | _ => none
     | [["fir", p, q, pts], w] => do
         let p ← p.toNat?; let q ← q.toNat?; let pts ← pts.toNat?; let w ← parseFs w
         if p = 0 ∨ q = 0 then none else
